@@ -157,7 +157,9 @@ func Tokenize(usage string) ([]*Token, error) {
 				}
 			case o == '-':
 				pos++
-				if pos == eof || usage[pos] == ' ' {
+				// the end of options marker ends like any other token: at a blank, a bracket,
+				// a parenthesis or a choice bar ("[--]", "(-- | -f)")
+				if pos == eof || strings.IndexByte(" \t[]()|", usage[pos]) >= 0 {
 					tkp(TTDoubleDash, "--", start)
 					continue
 				}
